@@ -631,8 +631,9 @@ func (env *SpecEnv) specCall(sf *SpecFunc, n *ast.CallExpr) Val {
 }
 
 // quant: forall(k, lo, hi, body) / exists(k, lo, hi, body).
-// The bound variable of the SMT quantifier is the absolute array index of the
-// first indexing expression s[k+c] found in the body (pattern (select M j)).
+// The bound variable of the SMT quantifier is the absolute array position of the
+// first s[k+c] (or position argument k+c of a spec function) found in the body, so
+// that the trigger (select M j) / (sf ... j ...) contains the bound variable itself.
 func (env *SpecEnv) quant(isForall bool, n *ast.CallExpr) Val {
 	if len(n.Args) != 4 {
 		env.fail("forall/exists expect (k, lo, hi, body)")
@@ -644,37 +645,57 @@ func (env *SpecEnv) quant(isForall bool, n *ast.CallExpr) Val {
 	lo := env.eval(n.Args[1])
 	hi := env.eval(n.Args[2])
 	k := id.Name
-	// find an anchor: IndexExpr whose index is k, k+c or k-c
 	var anchorX ast.Expr
 	var anchorC ast.Expr
 	neg := false
+	shape := func(ix ast.Expr) (bool, ast.Expr, bool) {
+		switch x := ix.(type) {
+		case *ast.Ident:
+			if x.Name == k {
+				return true, nil, false
+			}
+		case *ast.BinaryExpr:
+			if l, ok := x.X.(*ast.Ident); ok && l.Name == k && (x.Op == token.ADD || x.Op == token.SUB) && !mentions(x.Y, k) {
+				return true, x.Y, x.Op == token.SUB
+			}
+		}
+		return false, nil, false
+	}
 	ast.Inspect(n.Args[3], func(x ast.Node) bool {
 		if anchorX != nil {
 			return false
 		}
-		ie, ok := x.(*ast.IndexExpr)
-		if !ok {
-			return true
-		}
-		if mentions(ie.X, k) {
-			return true
-		}
-		switch ix := ie.Index.(type) {
-		case *ast.Ident:
-			if ix.Name == k {
-				anchorX = ie.X
+		switch ie := x.(type) {
+		case *ast.IndexExpr:
+			if mentions(ie.X, k) {
+				return true
 			}
-		case *ast.BinaryExpr:
-			if l, ok := ix.X.(*ast.Ident); ok && l.Name == k && (ix.Op == token.ADD || ix.Op == token.SUB) && !mentions(ix.Y, k) {
-				anchorX, anchorC, neg = ie.X, ix.Y, ix.Op == token.SUB
+			if ok, c, ng := shape(ie.Index); ok {
+				anchorX, anchorC, neg = ie.X, c, ng
+			}
+		case *ast.CallExpr:
+			if fid, ok := ie.Fun.(*ast.Ident); ok {
+				if sf, ok := env.e.W.specFuncs[fid.Name]; ok && len(sf.Params) == len(ie.Args) {
+					for pi, p := range sf.Params {
+						if p.Type != "pos" {
+							continue
+						}
+						if ok, c, ng := shape(ie.Args[pi]); ok {
+							for mi, mp := range sf.Params {
+								if mp.Name == p.Of && !mentions(ie.Args[mi], k) {
+									anchorX, anchorC, neg = ie.Args[mi], c, ng
+								}
+							}
+						}
+					}
+				}
 			}
 		}
 		return true
 	})
 	sub := env.fork()
 	j := sym(env.e.fresh("q"))
-	var pattern string
-	var kTerm string
+	kTerm := j
 	if anchorX != nil {
 		s := env.eval(anchorX)
 		if s.K == KSlc {
@@ -688,11 +709,7 @@ func (env *SpecEnv) quant(isForall bool, n *ast.CallExpr) Val {
 				}
 			}
 			kTerm = sSub(j, shift)
-			pattern = sSel(sSel(env.st.get("Mem"), slcArr(s.T)), j)
 		}
-	}
-	if kTerm == "" {
-		kTerm = j
 	}
 	sub.bound[k] = kTerm
 	body := sub.eval(n.Args[3])
@@ -701,8 +718,8 @@ func (env *SpecEnv) quant(isForall bool, n *ast.CallExpr) Val {
 	}
 	rng := sAnd(sApp("<=", lo.T, kTerm), sApp("<", kTerm, hi.T))
 	pat := ""
-	if pattern != "" {
-		pat = " :pattern (" + pattern + ")"
+	if tr := findTrigger(body.T, j); tr != "" {
+		pat = " :pattern (" + tr + ")"
 	}
 	if isForall {
 		if pat != "" {
@@ -711,6 +728,47 @@ func (env *SpecEnv) quant(isForall bool, n *ast.CallExpr) Val {
 		return vBool(fmt.Sprintf("(forall ((%s Int)) (=> %s %s))", j, rng, body.T))
 	}
 	return vBool(fmt.Sprintf("(exists ((%s Int)) (and %s %s))", j, rng, body.T))
+}
+
+// findTrigger: first application of select or of a spec function that has the bound
+// variable as a direct argument.
+func findTrigger(body, j string) string {
+	x, err := parseSx(body)
+	if err != nil {
+		return ""
+	}
+	var selectT, sfT string
+	var walk func(x *sx)
+	walk = func(x *sx) {
+		if x.list == nil {
+			return
+		}
+		h := x.head()
+		if h == "forall" || h == "exists" {
+			return
+		}
+		direct := false
+		for _, c := range x.list[1:] {
+			if c.list == nil && c.atom == j {
+				direct = true
+			}
+		}
+		if direct {
+			if h == "select" && selectT == "" {
+				selectT = x.String()
+			} else if strings.HasPrefix(h, "|sf:") && sfT == "" {
+				sfT = x.String()
+			}
+		}
+		for _, c := range x.list {
+			walk(c)
+		}
+	}
+	walk(x)
+	if selectT != "" {
+		return selectT
+	}
+	return sfT
 }
 
 func mentions(x ast.Expr, name string) bool {
